@@ -66,6 +66,15 @@
 static void (*v_realloc_hook)(void* p, size_t n) = NULL;
 static void* v_realloc(void* p, size_t n) { if (v_realloc_hook) v_realloc_hook(p, n); return (realloc)(p, n); }
 #define realloc(p, n) v_realloc((p), (n))
+/* the default allocator path of alloc_by (`calloc(1, sizeof(struct Header) + size(type))`) and `free` in dealloc are routed the
+   same way: while armed, the block of a Plain object (a type WITHOUT an Alloc instance) is served from the arena at the address
+   the op file names; `free` of an arena block is recorded as the deallocation of that object; everything else goes to libc.
+   v_free_hook: called on every other free of the library (op `teardown`: GC_Del's `free(gc->entries)` right after GC_Sweep) */
+static void* v_calloc(size_t n, size_t s);
+static void v_free(void* p);
+static void (*v_free_hook)(void* p) = NULL;
+#define calloc(n, s) v_calloc((n), (s))
+#define free(p) v_free((p))
 #include "common.h"
 #include <sys/mman.h>
 #include <errno.h>
@@ -79,6 +88,13 @@ struct Probe { int64_t id; };
 static var Probe_Alloc(void); static void Probe_Dealloc(var self); static void Probe_Destruct(var self);
 static void Probe_Mark(var self, var gc, void(*f)(var,void*));
 var Probe = Cello(Probe, Instance(Alloc, Probe_Alloc, Probe_Dealloc), Instance(New, NULL, Probe_Destruct), Instance(Mark, Probe_Mark));
+
+/* a type without an Alloc instance: alloc_by takes the calloc path, dealloc the free path (same layout and destructor as Probe) */
+struct Plain { int64_t id; };
+var Plain = Cello(Plain, Instance(New, NULL, Probe_Destruct));
+static char is_plain[MAXID];          /* the id was last allocated as a Plain */
+static int want_plain = -1;           /* armed: the next calloc of a Plain block is served from the arena for this id */
+static size_t n_route[2][3], n_delroute[2][3], n_arena_calloc = 0, n_arena_free = 0, n_show = 0, n_show_rows = 0, n_teardown = 0;
 
 enum { NEVER = 0, MANAGED = 1, UNMANAGED = 2, DEAD = 3 };
 static int64_t id_u[MAXID]; static char id_known[MAXID]; static char state[MAXID]; static char rootflag[MAXID];
@@ -124,11 +140,36 @@ static var Probe_Alloc(void) {
   return obj;
 }
 
-static void Probe_Dealloc(var self) {
-  int id = (int)((struct Probe*)self)->id;
+static void note_dealloc(int id) {
   ndealloc[id]++;
   if (ntrace == captrace) { captrace = captrace ? captrace * 2 : 1024; trace = realloc(trace, captrace * sizeof(int)); }
   trace[ntrace++] = id;
+}
+static void Probe_Dealloc(var self) { note_dealloc((int)((struct Probe*)self)->id); }
+
+static int id_of_u(int64_t u);
+static void* v_calloc(size_t n, size_t s) {
+  if (want_plain >= 0 && n == 1 && s == sizeof(struct Header) + sizeof(struct Plain)) {
+    int id = want_plain; want_plain = -1;
+    char* self = addr_of(id);
+    char* head = self - sizeof(struct Header);
+    map_pages((uintptr_t)head, (uintptr_t)self + sizeof(struct Plain));
+    memset(head, 0, s);
+    n_arena_calloc++;
+    return head;
+  }
+  return (calloc)(n, s);
+}
+static void v_free(void* p) {
+  uintptr_t a = (uintptr_t)p;
+  if (a >= ARENA_BASE && a < ARENA_BASE + (1ULL << 46) + 4096) {
+    /* dealloc() of a Plain object: `free(((char*)self) - sizeof(struct Header))` (the block has been overwritten already) */
+    uintptr_t self = a + sizeof(struct Header);
+    int id = (self >= ADDR0 && (self - ADDR0) % 8 == 0) ? id_of_u((int64_t)((self - ADDR0) / 8)) : -1;
+    if (id >= 0) { n_arena_free++; note_dealloc(id); return; }
+  }
+  if (v_free_hook) v_free_hook(p);
+  (free)(p);
 }
 
 static void Probe_Destruct(var self) {
@@ -328,15 +369,19 @@ static void emit(struct GC* gc, size_t line, const char* op, const char* res) {
 
 /* objects occupy 32 bytes = 4 address units: at most one object per bucket u/4; neighbours are checked for overlap */
 #define BUCKETS (1u << 19)
-static int64_t bucket_u[BUCKETS]; static char bucket_used[BUCKETS];
+static int64_t bucket_u[BUCKETS]; static char bucket_used[BUCKETS]; static int bucket_idv[BUCKETS];
 static int64_t* bucket_find(int64_t b) {
   uint64_t h = ((uint64_t)b * 0x9E3779B97F4A7C15ULL) >> 45;
   for (;;) { if (!bucket_used[h]) return NULL; if (bucket_u[h] / 4 == b) return &bucket_u[h]; h = (h + 1) & (BUCKETS - 1); }
 }
-static void bucket_add(int64_t u) {
+static void bucket_add(int64_t u, int id) {
   uint64_t h = ((uint64_t)(u / 4) * 0x9E3779B97F4A7C15ULL) >> 45;
   while (bucket_used[h]) h = (h + 1) & (BUCKETS - 1);
-  bucket_used[h] = 1; bucket_u[h] = u;
+  bucket_used[h] = 1; bucket_u[h] = u; bucket_idv[h] = id;
+}
+static int id_of_u(int64_t u) {
+  int64_t* o = bucket_find(u / 4);
+  return (o && *o == u) ? bucket_idv[o - bucket_u] : -1;
 }
 static int register_id(int id, int64_t u) {
   if (id < 0 || id >= MAXID || u < 0 || (uint64_t)u > (1ULL << 43)) return 0;
@@ -345,7 +390,7 @@ static int register_id(int id, int64_t u) {
     int64_t* o = b >= 0 ? bucket_find(b) : NULL;
     if (o) { int64_t d = *o - u; if (d < 0) d = -d; if (d < 4) return 0; }
   }
-  bucket_add(u);
+  bucket_add(u, id);
   id_known[id] = 1; id_u[id] = u; if (id > maxid) maxid = id;
   return 1;
 }
@@ -414,6 +459,15 @@ static void tnewx_hook(void* p, size_t n) {
   }
 }
 
+/* teardown: fires at GC_Del's `free(gc->entries)` (GC_Rehash frees the OLD array after it has replaced gc->entries, so this
+   pointer is only ever passed to free by GC_Del) */
+static struct GC* td_gc; static size_t td_line; static int td_fired;
+static void teardown_hook(void* p) {
+  if (td_fired || p != (void*)td_gc->entries) return;
+  td_fired = 1;
+  emit(td_gc, td_line, "teardown", "ok");
+}
+
 int main(int argc, char** argv) {
   v_init();
   if (argc < 2) { fprintf(stderr, "usage: h_reg <opfile>\n"); return 2; }
@@ -448,7 +502,10 @@ int main(int argc, char** argv) {
       na++; q = end;
     }
     if (bad) { O("bad-op"); continue; }
-    int is_new = !strcmp(op, "new"), is_root = !strcmp(op, "newroot"), is_raw = !strcmp(op, "newraw"), is_t = !strcmp(op, "tnew");
+    /* pnew / pnewroot / pnewraw: new(Plain) / new_root(Plain) / new_raw(Plain) — new_with & co. on a type WITHOUT an Alloc instance */
+    int plain = op[0] == 'p' && (!strcmp(op, "pnew") || !strcmp(op, "pnewroot") || !strcmp(op, "pnewraw"));
+    const char* aop = plain ? op + 1 : op;
+    int is_new = !strcmp(aop, "new"), is_root = !strcmp(aop, "newroot"), is_raw = !strcmp(aop, "newraw"), is_t = !plain && !strcmp(op, "tnew");
     int is_tx = !strcmp(op, "tnewx");
     if (!strcmp(op, "dumpevery") && na == 1) {
       if (args[0] == 0) { O("bad-op"); continue; }
@@ -471,16 +528,21 @@ int main(int argc, char** argv) {
         if (!WIFEXITED(st) || WEXITSTATUS(st) != 0) { X("sig=reg-tnew line=%zu what=threshold collection ended with status %d", line, st); n_x++; }
       }
       want_id = id; stalemarked[id] = 0;
+      is_plain[id] = (char)plain;
+      n_route[plain][is_raw ? 1 : is_root ? 2 : 0]++;
+      if (plain) want_plain = id;
       if (is_raw) {
-        var p = alloc_raw(Probe); (void)p;
+        var p = plain ? (var)new_raw(Plain) : alloc_raw(Probe);
+        if (plain) { if (p != addr_of(id) || want_plain >= 0) { X("sig=reg-harness line=%zu what=allocation did not use the arena calloc", line); n_x++; want_plain = -1; } else ((struct Plain*)p)->id = id; }
         state[id] = UNMANAGED; rootflag[id] = 0;
       } else {
         /* exact ops keep the collection threshold out of reach (the model does the same): the real threshold path
            scans the C stack and is exercised by `tnew` */
         if (gc->running && gc->mitems < gc->nitems + 1) gc->mitems = gc->nitems + 1;
         int running = gc->running;
-        var p = is_root ? alloc_root(Probe) : alloc(Probe);
-        if (p != addr_of(id)) { X("sig=reg-harness line=%zu what=allocation did not use the probe allocator", line); n_x++; }
+        var p = plain ? (is_root ? (var)new_root(Plain) : (var)new(Plain)) : (is_root ? alloc_root(Probe) : alloc(Probe));
+        if (p != addr_of(id) || want_plain >= 0) { X("sig=reg-harness line=%zu what=allocation did not use the probe allocator", line); n_x++; want_plain = -1; }
+        else if (plain) ((struct Plain*)p)->id = id;
         if (!running && strict) { state[id] = MANAGED; rootflag[id] = is_root; stopped_touched[id] = 1; strict_taint = 1; }
         else { state[id] = running ? MANAGED : UNMANAGED; rootflag[id] = running && is_root; }
       }
@@ -493,7 +555,8 @@ int main(int argc, char** argv) {
       if (!okargs || !register_id(id, big[1]) || state[id] == MANAGED || state[id] == UNMANAGED) { O("bad-op"); continue; }
       memset(listed, 0, (size_t)maxid + 1);
       for (size_t k = 2; k < na; k++) listed[args[k]] = 1;
-      want_id = id; stalemarked[id] = 0;
+      want_id = id; stalemarked[id] = 0; is_plain[id] = 0;
+      n_route[0][0]++;
       int running = gc->running;
       if (running) {
         /* ledger: the new object is registered first; then what the collection triggered by this allocation must release
@@ -528,6 +591,7 @@ int main(int argc, char** argv) {
       if (id >= MAXID || !id_known[id]) { O("bad-op"); continue; }
       if (gc->running && state[id] == MANAGED) { state[id] = DEAD; ledger_fin_dfs(id, 1); }
       else if (!gc->running && strict && state[id] == MANAGED) { state[id] = DEAD; stopped_touched[id] = 1; strict_taint = 1; }   /* deleted, says the property text; never finalised (C06's F23) */
+      n_delroute[(int)is_plain[id]][!strcmp(op, "del") ? 0 : 2]++;
       if (!strcmp(op, "del")) GUARD(gc, line, op, del(addr_of(id))); else GUARD(gc, line, op, del_root(addr_of(id)));
       emit(gc, line, op, "ok");
     } else if ((!strcmp(op, "delraw") || !strcmp(op, "delrawm")) && na == 1) {
@@ -537,6 +601,7 @@ int main(int argc, char** argv) {
       /* del_raw = dealloc(destruct(self)) without GC_Rem: for a registered object this is KF-C17-dealloc-stale by another entrance (witness only) */
       if (state[id] == MANAGED || mem(current(GC), addr_of(id))) { stale[id] = 1; dealloc_taint = 1; }
       state[id] = DEAD; ledger_fin_dfs(id, gc->running);
+      n_delroute[(int)is_plain[id]][1]++;
       GUARD(gc, line, op, del_raw(addr_of(id)));
       emit(gc, line, op, "ok");
     } else if (!strcmp(op, "delnull") && na == 0) {
@@ -604,6 +669,67 @@ int main(int argc, char** argv) {
         if (state[args[k]] == MANAGED) { stalemarked[args[k]] = 1; stale_pending = 1; }
       }
       emit(gc, line, op, "ok");
+    } else if (!strcmp(op, "show") && na == 0) {
+      /* show(current(GC)) = GC_Show: the header line, one row per slot, the closing line.  Pointers (%p) are rewritten as
+         u<k>; the rows go to the O line (compared with the model's showLines); the direct oracle reads the rows against
+         the ledger: every live managed object on exactly one row, with its type, `root`/`auto` as allocated, blank mark */
+      size_t ni0 = gc->nitems, ns0 = gc->nslots;
+      var str = new_raw(String, $S(""));
+      show_to(gc, str, 0);
+      char* txt = strdup(c_str(str));
+      del_raw(str);
+      if (gc->nitems != ni0 || gc->nslots != ns0) { X("sig=reg-show line=%zu what=show(current(GC)) changed the registry", line); n_x++; }
+      static int* seen = NULL; static int seengen = 0;
+      if (!seen) seen = (int*)(calloc)(MAXID, sizeof(int));
+      seengen++;
+      sb_reset(); size_t rows = 0, items = 0, occupied = 0; int closed = 0;
+      char* save = NULL;
+      for (char* ln = strtok_r(txt, "\n", &save); ln; ln = strtok_r(NULL, "\n", &save), rows++) {
+        if (rows == 0) { if (strncmp(ln, "<'GC' At 0x", 11)) { X("sig=reg-show line=%zu what=unexpected header line `%s`", line, ln); n_x++; } continue; }
+        char* hx = strstr(ln, " 0x");
+        if (!hx) { sb_add(items ? ",%s" : "%s", ln); items++; if (!strcmp(ln, "+------------------->")) closed = 1; continue; }
+        char* end; uintptr_t pv = (uintptr_t)strtoull(hx + 3, &end, 16); char ab[40];
+        *hx = 0;
+        sb_add(items ? ",%s %s%s" : "%s %s%s", ln, addr_str(pv, ab, sizeof ab), end); items++; occupied++;
+        size_t idx = 0; char tn[32] = "";
+        if (sscanf(ln, "| %zu : %31s", &idx, tn) != 2 || idx + 1 != rows) { X("sig=reg-show line=%zu what=row %zu is malformed", line, rows - 1); n_x++; continue; }
+        int id = (pv >= ADDR0 && (pv - ADDR0) % 8 == 0) ? id_of_u((int64_t)((pv - ADDR0) / 8)) : -1;
+        if (id < 0 || state[id] != MANAGED) { X("sig=reg-show line=%zu what=row %zu lists an address that is no live managed object", line, idx); n_x++; continue; }
+        if (seen[id] == seengen) { X("sig=reg-show line=%zu what=object %d is listed twice", line, id); n_x++; }
+        seen[id] = seengen;
+        if (strcmp(tn, is_plain[id] ? "Plain" : "Probe")) { X("sig=reg-show line=%zu what=object %d listed as `%s`", line, id, tn); n_x++; }
+        int stale_star = stale_pending && stalemarked[id] && !strcmp(end, rootflag[id] ? " root *" : " auto *");   /* a bit `stalemark` left */
+        if (strcmp(end, rootflag[id] ? " root  " : " auto  ") && !stale_star) { X("sig=reg-show line=%zu what=object %d (allocated with root=%d) is listed as `%s`", line, id, rootflag[id], end); n_x++; }
+      }
+      for (int id = 0; id <= maxid; id++) if (id_known[id] && state[id] == MANAGED && seen[id] != seengen) { X("sig=reg-show line=%zu what=live managed object %d is not listed", line, id); n_x++; }
+      if (!closed || items != gc->nslots + 1) { X("sig=reg-show line=%zu what=%zu rows for %zu slots (closing line %d)", line, items, gc->nslots, closed); n_x++; }
+      n_show++; n_show_rows += occupied;
+      O("show ok rows=%zu %s", items, list_or_digest(items));
+      (free)(txt);
+    } else if (!strcmp(op, "teardown") && na == 0) {
+      /* GC_Del in a forked child (what Cello_Exit runs): GC_Unmark, GC_Sweep — everything but the roots is finalised —, then
+         the arrays are freed.  The observation is taken by the free hook at `free(gc->entries)`, the first statement after
+         GC_Sweep; the child ends there, the parent goes on with the registry as it was */
+      fflush(stdout);
+      n_teardown++;
+      pid_t pid = fork();
+      if (pid == 0) {
+        alarm(60);
+        nwork = 0;
+        for (int id = 0; id <= maxid; id++)
+          if (id_known[id] && state[id] == MANAGED && !rootflag[id]) { state[id] = DEAD; expdealloc[id]++; work[nwork++] = id; }
+        ledger_finalise_closure(gc->running);
+        stale_clear();
+        td_gc = gc; td_line = line; td_fired = 0;
+        v_free_hook = teardown_hook;
+        GUARD(gc, line, op, del_raw(current(GC)));
+        v_free_hook = NULL;
+        if (!td_fired) { if (op_raised) O("teardown raised"); else { X("sig=reg-harness line=%zu what=GC_Del did not free its entry array", line); O("teardown lost"); } }
+        fflush(stdout);
+        _exit(0);
+      }
+      int st = 0; waitpid(pid, &st, 0);
+      if (!WIFEXITED(st) || WEXITSTATUS(st) != 0) { X("sig=reg-teardown line=%zu what=GC_Del ended with status %d", line, st); n_x++; O("teardown crash"); }
     } else if (!strcmp(op, "stop") && na == 0) { stop(current(GC)); emit(gc, line, op, "ok"); }
     else if (!strcmp(op, "start") && na == 0) { start(current(GC)); emit(gc, line, op, "ok"); }
     else if (!strcmp(op, "kill") && na == 2) {
@@ -628,6 +754,9 @@ int main(int argc, char** argv) {
     } else O("bad-op");
   }
   I("ops=%zu dumps=%zu oracle_failures=%zu max_slots=%zu max_probe_distance=%zu wrapped_entries_seen=%zu del_null_during_sweep=%zu gc_mark_probes_clear=%zu gc_mark_probes_stale=%zu destructor_raises=%zu destructor_raises_in_release_loop=%zu", n_ops, n_dumps, n_x, max_slots, max_dist, n_wrapped, n_null_in_sweep, n_probe_clear, n_probe_set, n_thrown, n_thrown_in_sweep);
+  I("alloc_own_standard=%zu alloc_own_raw=%zu alloc_own_root=%zu alloc_default_standard=%zu alloc_default_raw=%zu alloc_default_root=%zu del_own_standard=%zu del_own_raw=%zu del_own_root=%zu del_default_standard=%zu del_default_raw=%zu del_default_root=%zu arena_calloc=%zu arena_free=%zu shows=%zu show_rows_occupied=%zu teardowns=%zu",
+    n_route[0][0], n_route[0][1], n_route[0][2], n_route[1][0], n_route[1][1], n_route[1][2],
+    n_delroute[0][0], n_delroute[0][1], n_delroute[0][2], n_delroute[1][0], n_delroute[1][1], n_delroute[1][2], n_arena_calloc, n_arena_free, n_show, n_show_rows, n_teardown);
   kills_enabled = 0;   /* teardown (Cello_Exit sweeps what is left) runs plain destructors */
   return 0;
 }
